@@ -199,7 +199,11 @@ async def _member(case, spec, tag, obs, c, loop, net, ctl):
                 return
         # default loop until the harness ends the case
         while not ctl["stop_all"]:
-            await poll("getmany", 0.1)
+            # the application's steady-state polling style: getmany with a timeout, or getone under wait_for (every
+            # poll of a quiet topic then ends by cancellation)
+            await poll(spec.get("loop_poll", "getmany"), 0.1)
+            if spec.get("loop_poll") == "getone":
+                await asyncio.sleep(0.001)      # the application handles the record before it polls again
         await stop("final")
     except ConsumerStoppedError:
         obs.ev(loop, "consumer_stopped_error", tag)
